@@ -150,7 +150,8 @@ F12(d, style) == d.kind = "goog" /\ style # "freeform" /\ d.inlead > 0
 (* Inventory: which items are collected, under which name                   *)
 
 Name(items, x) ==   \* setters and deleters carry the name of the property they belong to
-  IF items[x].deco \in {"setter", "deleter"}
+  IF items[x].nm # 0 THEN items[x].nm            \* real modules (CollectTrace): an explicit name id, equal for equal names
+  ELSE IF items[x].deco \in {"setter", "deleter"}
   THEN LET S == {y \in 1..(x-1) : items[y].deco = "property" /\ items[y].depth = items[x].depth} IN
        IF S = {} THEN x ELSE CHOOSE y \in S : \A z \in S : z <= y
   ELSE x
